@@ -1,4 +1,75 @@
-// engine K harnesses for module hook 'prss' (included under cfg(kani) by /repo)
+// engine K — protocol/prss/mod.rs (property C06: index arithmetic never aliases two draws)
+use super::*;
+
+/// PrssIndex128::new is Ok iff offset <= 2^11; the u128/u64 encodings are injective on valid indices
+/// and inverse to try_from => distinct (index, offset) give distinct block-cipher inputs.
+#[kani::proof]
+fn c06_prss_index128_injective() {
+    let i1: u32 = kani::any();
+    let o1: usize = kani::any();
+    let i2: u32 = kani::any();
+    let o2: usize = kani::any();
+    let a = PrssIndex128::new(PrssIndex::from(i1), o1);
+    let b = PrssIndex128::new(PrssIndex::from(i2), o2);
+    kani::cover!(o1 == 2048);
+    kani::cover!(o1 == 2049);
+    kani::cover!(i1 != i2 && o1 != o2 && o1 <= 2048 && o2 <= 2048);
+    assert!(a.is_ok() == (o1 <= 2048));
+    if let (Ok(a), Ok(b)) = (a, b) {
+        let (ua, ub) = (u128::from(a), u128::from(b));
+        assert!((ua == ub) == (i1 == i2 && o1 == o2));
+        assert!(ua == (u128::from(i1) << 32) + o1 as u128);
+        assert!(u128::from(u64::from(a)) == ua);
+        assert!(a.index() == PrssIndex::from(i1));
+        match PrssIndex128::try_from(ua) {
+            Ok(back) => assert!(back == a),
+            Err(_) => assert!(false, "round trip of a valid index failed"),
+        }
+    }
+}
+
+/// decoding a cipher-input integer: Ok iff it is < 2^64 and its low word is a valid offset
+#[kani::proof]
+fn c06_prss_index128_try_from() {
+    let v: u128 = kani::any();
+    kani::cover!(v >> 64 != 0);
+    kani::cover!(v >> 64 == 0 && (v & 0xffff_ffff) > 2048);
+    let r = PrssIndex128::try_from(v);
+    let valid = v >> 64 == 0 && (v & 0xffff_ffff) <= 2048;
+    assert!(r.is_ok() == valid);
+    if let Ok(x) = r {
+        assert!(u128::from(x) == v);
+    }
+}
+
+/// the sequential counter can only move forward; it never wraps silently
+#[kani::proof]
+fn c06_prss_index_add_no_wrap() {
+    let i: u32 = kani::any();
+    let d: u32 = kani::any();
+    kani::assume(i.checked_add(d).is_some());
+    kani::cover!(i == u32::MAX - d && d > 0);
+    let mut x = PrssIndex::from(i);
+    x += d;
+    assert!(x == PrssIndex::from(i + d));
+    // the conversion used by call sites that pass u128 indices
+    let w: u128 = kani::any();
+    kani::assume(w <= u128::from(u32::MAX));
+    assert!(PrssIndex::from(w) == PrssIndex::from(w as u32));
+}
+
+/// `PrssIndex::offset` (used by every multi-block draw): chunk k of index i is the cipher input (i << 32) + k
+#[kani::proof]
+fn c06_prss_offset_chunks_distinct() {
+    let i: u32 = kani::any();
+    let k1: usize = kani::any();
+    let k2: usize = kani::any();
+    kani::assume(k1 <= 2048 && k2 <= 2048);
+    kani::cover!(k1 != k2);
+    let a = u128::from(PrssIndex::from(i).offset(k1));
+    let b = u128::from(PrssIndex::from(i).offset(k2));
+    assert!((a == b) == (k1 == k2));
+}
 
 #[cfg(test)]
 include!(concat!(env!("IPA_VERIF_DIR"), "/.build/playback/prss.rs"));
